@@ -66,12 +66,21 @@ def sparse_probes(rnd, hist):
 def run(prop, tier, seed, workdir):
     res = Result("handlers")
     rnd = random.Random(seed)
-    maxops = 4 if tier == "quick" else 5
+    maxops = 4
     cfg = os.path.join(workdir, "handlers.cfg")
     tlc.write_cfg(cfg, constants=dict(MaxThreads=3, MaxOps=maxops), invariants=["C13_Dispatch", "C13_Prev", "C13_NoForeign"])
     r = tlc.model_check("Handlers", cfg, workdir, workers=16, dump=True, heap="12g")
     if r["violated"] or not r["ok"]:
         raise tlc.TLCError("Handlers model violates C13: %s\n%s" % (r["violated"], r["out"][-2000:]))
+    if tier != "quick":
+        # histories of length 5 are model-checked only (their dump is > 10 GB); replayed are all histories of length <= 4 and the seeded long ones
+        cfg5 = os.path.join(workdir, "handlers5.cfg")
+        tlc.write_cfg(cfg5, constants=dict(MaxThreads=3, MaxOps=5), invariants=["C13_Dispatch", "C13_Prev", "C13_NoForeign"])
+        r5 = tlc.model_check("Handlers", cfg5, workdir, workers=16, heap="12g", timeout=7200)
+        if r5["violated"] or not r5["ok"]:
+            raise tlc.TLCError("Handlers model (MaxOps=5) violates C13: %s\n%s" % (r5["violated"], r5["out"][-2000:]))
+        r["distinct"] += r5["distinct"]
+        r["states"] += r5["states"]
     codes = set()
     with open(r["dump_path"]) as f:
         for ln in f:
